@@ -178,7 +178,7 @@ type Interp struct {
 	depth    int
 	IsLog    func(*ssa.CallCommon) bool
 	InScope  func(*ssa.Function) bool
-	GoInline bool // run goroutines synchronously at their go statement
+	GoInline bool     // run goroutines synchronously at their go statement
 	Trace    []string // branch decisions, for witnesses
 	Deferred [][]func()
 	CurFn    Value // for dynamic calls: the evaluated function value, visible to Oracle.Call
